@@ -9,5 +9,5 @@ Separate Extraction
   Syntax.wfb Analyzer.analyze_st Analyzer.no_unreachable_on Analyzer.getter_return_on Analyzer.no_fallthrough_on
   Analyzer.faithful Analyzer.repaired
   SemDecide.prog_reach SemDecide.prog_can_fall_off
-  AnalyzerG.analyzeG
+  AnalyzerG.analyzeG Analyzer.any_stops
   Oracle.c10_violations Oracle.c11_getter_violation Oracle.c11_case_violations.
